@@ -68,10 +68,13 @@ def ws_files(c):
         return files
     use, ty = {"use_unknown": ("use zzz::Dup;\n", "Dup"), "use_facade": ("use facade::Dup;\n", "Dup"), "bare": ("", "Dup"),
                "glob_all": ("".join(f"use p{i}::*;\n" for i in range(1, n + 1)), "Dup"), "qualified_unknown": ("", "zzz::Dup"),
-               "use_first": ("use p1::Dup;\n", "Dup")}[c["form"]]
-    if c["form"] == "use_facade":
+               "use_first": ("use p1::Dup;\n", "Dup"),
+               # the ambiguous name through a facade, next to an ORDINARY import from a provider that is not the alphabetically first
+               "use_facade_plus": (f"use facade::Dup;\nuse p{n}::Only{n};\n", "Dup")}[c["form"]]
+    if c["form"] in ("use_facade", "use_facade_plus"):
         files["facade/src/lib.rs"] = "pub use p1::Dup;\n#[typeshare]\npub struct FacadeOwn { pub f: u32 }\n"
-    files["app/src/lib.rs"] = (use + f"#[typeshare]\npub struct UsesDup {{ pub d: {ty}, pub list: Vec<{ty}>, pub m: Option<{ty}> }}\n"
+    extra = f", pub o: Only{n}" if c["form"] == "use_facade_plus" else ""
+    files["app/src/lib.rs"] = (use + f"#[typeshare]\npub struct UsesDup {{ pub d: {ty}, pub list: Vec<{ty}>, pub m: Option<{ty}>{extra} }}\n"
                                f'#[typeshare]\n#[serde(tag = "t", content = "c")]\npub enum EDup {{ A({ty}), B {{ x: {ty} }} }}\n')
     return files
 
